@@ -2,51 +2,33 @@
 static int bad; static void fail(const char *what){ printf("MISMATCH %s\n", what); bad++; }
 extern int lfunc_0(void); extern void *addr_lfunc_0(void); extern void *l1_addr_lfunc_0(void); int (*volatile fp_lfunc_0)(void) = lfunc_0;
 extern int ldata_1[]; extern const void *addr_ldata_1(void); extern const void *l1_addr_ldata_1(void); extern int read_ldata_1(void); extern int l1_read_ldata_1(void); int *volatile dp_ldata_1 = ldata_1;
-static int impl_eifunc_2(void){ return 65; } static void *res_eifunc_2(void){ return (void*)impl_eifunc_2; } int eifunc_2(void) __attribute__((ifunc("res_eifunc_2"))); extern void *l1_addr_eifunc_2(void); extern int l1_call_eifunc_2(void); int (*volatile fp_eifunc_2)(void) = eifunc_2;
-extern int ldata_3[]; extern const void *addr_ldata_3(void); extern const void *l1_addr_ldata_3(void); extern int read_ldata_3(void); extern int l1_read_ldata_3(void); int *volatile dp_ldata_3 = ldata_3;
-extern int lfunc_4(void); extern void *addr_lfunc_4(void); extern void *l1_addr_lfunc_4(void); int (*volatile fp_lfunc_4)(void) = lfunc_4;
-extern int lfunc_5(void); extern void *addr_lfunc_5(void); extern void *l1_addr_lfunc_5(void); int (*volatile fp_lfunc_5)(void) = lfunc_5;
-extern int lifunc_6(void); extern void *addr_lifunc_6(void); int (*volatile fp_lifunc_6)(void) = lifunc_6;
-extern int t_lalias_ts_7; extern void *addr_lalias_ts_7(void); extern void *waddr_lalias_ts_7(void); extern int read_lalias_ts_7(void); extern void write_lalias_ts_7(int);
-extern int lalias_sw_8; extern void *addr_lalias_sw_8(void); extern void *waddr_lalias_sw_8(void); extern int read_lalias_sw_8(void); extern void write_lalias_sw_8(int);
+extern int l2func_2(void); extern void *addr_l2func_2(void); extern void *l1_addr_l2func_2(void); int (*volatile fp_l2func_2)(void) = l2func_2;
+extern int lifunc_3(void); extern void *addr_lifunc_3(void); int (*volatile fp_lifunc_3)(void) = lifunc_3;
+extern int t_lalias_ts_4[]; extern void *addr_lalias_ts_4(void); extern void *waddr_lalias_ts_4(void); extern int read_lalias_ts_4(void); extern void write_lalias_ts_4(int);
+extern int lalias_sw_5; extern void *addr_lalias_sw_5(void); extern void *waddr_lalias_sw_5(void); extern int read_lalias_sw_5(void); extern void write_lalias_sw_5(int);
 int main(void){
     if ((void*)lfunc_0 != addr_lfunc_0()) fail("lfunc_0: exe vs defining library");
     if ((void*)lfunc_0 != l1_addr_lfunc_0()) fail("lfunc_0: exe vs lib1");
     if ((void*)fp_lfunc_0 != (void*)lfunc_0) fail("lfunc_0: data pointer vs code reference in exe");
-    if (fp_lfunc_0() != 103 || lfunc_0() != 103) fail("lfunc_0: call result");
+    if (fp_lfunc_0() != 94 || lfunc_0() != 94) fail("lfunc_0: call result");
     if ((const void*)ldata_1 != addr_ldata_1()) fail("ldata_1: exe vs defining library");
     if ((const void*)ldata_1 != l1_addr_ldata_1()) fail("ldata_1: exe vs lib1");
     if ((const void*)dp_ldata_1 != (const void*)ldata_1) fail("ldata_1: data pointer vs code reference in exe");
-    if (ldata_1[0] != 86 || read_ldata_1() != 86) fail("ldata_1: initial value");
-    ldata_1[0] = 1086; if (read_ldata_1() != 1086 || l1_read_ldata_1() != 1086) fail("ldata_1: write through exe not seen by library");
-    if ((void*)fp_eifunc_2 != (void*)eifunc_2) fail("eifunc_2: ifunc address in data vs code in exe");
-    
-#ifdef EIFUNC_FROM_LIB
-    if ((void*)eifunc_2 != l1_addr_eifunc_2()) fail("eifunc_2: exe ifunc address seen from lib1"); if (l1_call_eifunc_2() != 65) fail("eifunc_2: ifunc call from lib1");
-#endif
-    if (eifunc_2() != 65 || fp_eifunc_2() != 65) fail("eifunc_2: ifunc call result");
-    if ((const void*)ldata_3 != addr_ldata_3()) fail("ldata_3: exe vs defining library");
-    if ((const void*)ldata_3 != l1_addr_ldata_3()) fail("ldata_3: exe vs lib1");
-    if ((const void*)dp_ldata_3 != (const void*)ldata_3) fail("ldata_3: data pointer vs code reference in exe");
-    if (ldata_3[0] != 117 || read_ldata_3() != 117) fail("ldata_3: initial value");
-    ldata_3[0] = 1117; if (read_ldata_3() != 1117 || l1_read_ldata_3() != 1117) fail("ldata_3: write through exe not seen by library");
-    if ((void*)lfunc_4 != addr_lfunc_4()) fail("lfunc_4: exe vs defining library");
-    if ((void*)lfunc_4 != l1_addr_lfunc_4()) fail("lfunc_4: exe vs lib1");
-    if ((void*)fp_lfunc_4 != (void*)lfunc_4) fail("lfunc_4: data pointer vs code reference in exe");
-    if (fp_lfunc_4() != 34 || lfunc_4() != 34) fail("lfunc_4: call result");
-    if ((void*)lfunc_5 != addr_lfunc_5()) fail("lfunc_5: exe vs defining library");
-    if ((void*)lfunc_5 != l1_addr_lfunc_5()) fail("lfunc_5: exe vs lib1");
-    if ((void*)fp_lfunc_5 != (void*)lfunc_5) fail("lfunc_5: data pointer vs code reference in exe");
-    if (fp_lfunc_5() != 114 || lfunc_5() != 114) fail("lfunc_5: call result");
-    if ((void*)lifunc_6 != addr_lifunc_6()) fail("lifunc_6: library ifunc address exe vs library");
-    if ((void*)fp_lifunc_6 != (void*)lifunc_6) fail("lifunc_6: library ifunc address data vs code in exe");
-    if (lifunc_6() != 68 || fp_lifunc_6() != 68) fail("lifunc_6: ifunc call result");
-    if ((void*)&t_lalias_ts_7 != addr_lalias_ts_7() || (void*)&t_lalias_ts_7 != waddr_lalias_ts_7()) fail("lalias_ts_7: symbol in exe vs its alias used by the library");
-    if (t_lalias_ts_7 != 50 || read_lalias_ts_7() != 50) fail("lalias_ts_7: initial value");
-    t_lalias_ts_7 = 1050; if (read_lalias_ts_7() != 1050) fail("lalias_ts_7: write in exe not seen by the library through the alias");
-    write_lalias_ts_7(57); if (t_lalias_ts_7 != 57) fail("lalias_ts_7: write by the library through the alias not seen in exe");
-    if ((void*)&lalias_sw_8 != addr_lalias_sw_8() || (void*)&lalias_sw_8 != waddr_lalias_sw_8()) fail("lalias_sw_8: symbol in exe vs its alias used by the library");
-    if (lalias_sw_8 != 109 || read_lalias_sw_8() != 109) fail("lalias_sw_8: initial value");
-    lalias_sw_8 = 1109; if (read_lalias_sw_8() != 1109) fail("lalias_sw_8: write in exe not seen by the library through the alias");
-    write_lalias_sw_8(116); if (lalias_sw_8 != 116) fail("lalias_sw_8: write by the library through the alias not seen in exe");
+    if (ldata_1[0] != 13 || read_ldata_1() != 13) fail("ldata_1: initial value");
+    ldata_1[0] = 1013; if (read_ldata_1() != 1013 || l1_read_ldata_1() != 1013) fail("ldata_1: write through exe not seen by library");
+    if ((void*)l2func_2 != addr_l2func_2()) fail("l2func_2: exe vs defining library");
+    if ((void*)l2func_2 != l1_addr_l2func_2()) fail("l2func_2: exe vs lib1");
+    if ((void*)fp_l2func_2 != (void*)l2func_2) fail("l2func_2: data pointer vs code reference in exe");
+    if (fp_l2func_2() != 128 || l2func_2() != 128) fail("l2func_2: call result");
+    if ((void*)lifunc_3 != addr_lifunc_3()) fail("lifunc_3: library ifunc address exe vs library");
+    if ((void*)fp_lifunc_3 != (void*)lifunc_3) fail("lifunc_3: library ifunc address data vs code in exe");
+    if (lifunc_3() != 31 || fp_lifunc_3() != 31) fail("lifunc_3: ifunc call result");
+    if ((void*)t_lalias_ts_4 != addr_lalias_ts_4() || (void*)t_lalias_ts_4 != waddr_lalias_ts_4()) fail("lalias_ts_4: symbol in exe vs its alias used by the library");
+    if (t_lalias_ts_4[0] != 0 || read_lalias_ts_4() != 0) fail("lalias_ts_4: initial value");
+    t_lalias_ts_4[0] = 1176; if (read_lalias_ts_4() != 1176) fail("lalias_ts_4: write in exe not seen by the library through the alias");
+    write_lalias_ts_4(183); if (t_lalias_ts_4[0] != 183) fail("lalias_ts_4: write by the library through the alias not seen in exe");
+    if ((void*)&lalias_sw_5 != addr_lalias_sw_5() || (void*)&lalias_sw_5 != waddr_lalias_sw_5()) fail("lalias_sw_5: symbol in exe vs its alias used by the library");
+    if (lalias_sw_5 != 142 || read_lalias_sw_5() != 142) fail("lalias_sw_5: initial value");
+    lalias_sw_5 = 1142; if (read_lalias_sw_5() != 1142) fail("lalias_sw_5: write in exe not seen by the library through the alias");
+    write_lalias_sw_5(149); if (lalias_sw_5 != 149) fail("lalias_sw_5: write by the library through the alias not seen in exe");
     if (!bad) printf("OK\n"); return bad ? 1 : 0; }
